@@ -146,6 +146,8 @@ class Ref:
         self.max_depth = 0
         self.vl = 0            # successes of elements that contribute no value
         self.triggers = set()  # conditions under which a recorded known finding can manifest
+        self.lr_heads = set()  # rules that acted as the head of a seed growth in this execution
+        self.lr_involved = {}  # head rule -> rules re-entered while it was growing at the same position
 
     # ------------------------------------------------------------ lexical
     def _eat(self, rx, pos):
@@ -217,6 +219,7 @@ class Ref:
             if not seed['used']:
                 return res
             seed['res'] = res
+            self.lr_heads.add(name)
             while True:
                 self.lr_growth += 1
                 try:
